@@ -1,10 +1,15 @@
 #!/bin/sh
-# Build the framework from files on disk only (offline): Lean model + theorems + driver, Rust harness.
+# Build the framework from files on disk only (offline): Lean model + theorems + driver, Rust harness, CLI.
 set -e
 cd "$(dirname "$0")"
 export CARGO_NET_OFFLINE=true
 python3 tools/extract_consts.py
-(cd lean && lake build AmVerif amdriver)
+MODS=$(python3 -c "
+import sys; sys.path.insert(0,'tools')
+from registry import PROPS
+print(' '.join(sorted({m for c in PROPS.values() for m in c['modules']})))")
+(cd lean && lake build $MODS amdriver)
 [ -f harness/Cargo.lock ] || cp /repo/rust/Cargo.lock harness/Cargo.lock
 (cd harness && cargo build --offline)
+(cd /repo/rust && CARGO_TARGET_DIR=/verif/.cache/target-cli cargo build --offline -p automerge-cli)
 echo setup-ok
